@@ -23,8 +23,11 @@ impl<M> Clone for DerivedActorRef<M> {
     #[verifier::external_body]
     fn clone(&self) -> (r: Self) ensures r@ == self@ { unimplemented!() }
 }
-#[verifier::external_body] pub struct Interval { _p: u8 }
-impl Interval { pub uninterp spec fn period(&self) -> int; }
+/// what tokio does about ticks it could not deliver in time
+pub enum MissedTickBehavior { Burst, Delay, Skip }
+/// tokio's Interval: its period and missed-tick behaviour (tokio's default is Burst: ticks stay on the original grid, no drift)
+pub struct Interval { pub ghost p: int, pub ghost behaviour: MissedTickBehavior }
+impl Interval { pub open spec fn period(&self) -> int { self.p } }
 pub assume_specification [<ActorStatus as PartialEq>::eq] (a: &ActorStatus, b: &ActorStatus) -> (r: bool)
     ensures r == (*a == *b);
 impl PartialEqSpecImpl for ActorStatus {
@@ -92,14 +95,14 @@ pub fn vx_sleep(d: Duration) { unimplemented!() }
 #[verus_verify(external_body)]
 #[verus_spec(r =>
     with Tracked(log): Tracked<&mut EffectLog>
-    ensures final(log).s == old(log).s.push(Effect::IntervalNew(d@)), r.period() == d@)]
+    ensures final(log).s == old(log).s.push(Effect::IntervalNew(d@)), r.period() == d@, r.behaviour == MissedTickBehavior::Burst)]
 pub fn vx_interval(d: Duration) -> Interval { unimplemented!() }
 #[verus_verify]
 impl Interval {
     #[verus_verify(external_body)]
     #[verus_spec(
         with Tracked(log): Tracked<&mut EffectLog>
-        ensures final(log).s == old(log).s.push(Effect::Tick), final(self).period() == old(self).period())]
+        ensures final(log).s == old(log).s.push(Effect::Tick), final(self).p == old(self).p, final(self).behaviour == old(self).behaviour)]
     pub fn tick(&mut self) { unimplemented!() }
 }
 #[verus_verify]
@@ -145,4 +148,15 @@ impl<M> DerivedActorRef<M> {
         with Tracked(log): Tracked<&mut EffectLog>
         ensures final(log).s == old(log).s.push(Effect::Send(self@, r is Ok)))]
     pub fn send_message(&self, m: M) -> Result<(), MessagingErr<M>> { unimplemented!() }
+}
+
+/// `tokio::time::interval(d)`: first tick immediate, default missed-tick behaviour Burst
+#[verus_verify(external_body)]
+#[verus_spec(r => ensures r.p == d@, r.behaviour == MissedTickBehavior::Burst)]
+pub fn tokio_interval(d: Duration) -> Interval { unimplemented!() }
+#[verus_verify]
+impl Interval {
+    #[verus_verify(external_body)]
+    #[verus_spec(ensures final(self).p == old(self).p, final(self).behaviour == b)]
+    pub fn set_missed_tick_behavior(&mut self, b: MissedTickBehavior) { unimplemented!() }
 }
